@@ -6,7 +6,7 @@
   "source": "matrixssl/hsDecode.c",
   "keep_bodies": ["checkServerHelloVersion", "performTls13DowngradeCheck", "weOnlySupportTls13 (tls.c)", "psVerFromEncodingMajMin", "psVerFromEncoding"],
   "replace": [],
-  "assumed": ["parseServerHelloExtensions (model: consumes a harness-chosen part of the rest of the message, returns a harness-chosen result, does not touch the negotiated version or server_random)", "sslGetCipherSpec (model: NULL or one of two suites, as chosen by the harness)", "matrixSslSetKexFlags (model: no effect on the fields this unit talks about)", "sslCreateKeys (model: harness-chosen result)", "Memcmp/Memcpy/Memset (CBMC models)"],
+  "assumed": ["parseServerHelloExtensions (model: consumes a harness-chosen part of the rest of the message, returns a harness-chosen result, does not touch the negotiated version or server_random)", "sslGetCipherSpec (model: NULL, one of two fixed suites, or the table entry whose ident is the id asked for - as chosen by the harness)", "matrixSslSetKexFlags (model: no effect on the fields this unit talks about)", "sslCreateKeys (model: harness-chosen result)", "Memcmp/Memcpy/Memset (CBMC models)"],
   "mode": "bounded",
   "bounds": "ServerHello body <= 80 bytes (version, random, session id <= 32, suite, compression and up to 8 bytes of extension data that only the extension model looks at), every content and every hsLen",
   "defs_quick": ["SHBUF=80"],
@@ -32,6 +32,9 @@
  * server_random does not end in a sentinel.  Units downgrade_sentinel and
  * server_random_sentinel establish that the check function and the server do
  * their part; this unit asks whether the check is actually reached.
+ * "cipher suite ... offered by the client in that handshake" (RFC 5246 7.4.1.3: the single cipher
+ * suite selected by the server from the list in ClientHello.cipher_suites): when the application gave
+ * this client an explicit suite list, an accepted non-resumed ServerHello names one of them.
  * Further obligations: the accepted version is an enabled one, server_random
  * is the message's, a non-resumed session gets a real (non-NULL-suite) suite.
  * The native replay links the same models in front of the library (it is faithful whenever the extension parser is not reached).
@@ -46,7 +49,9 @@ static unsigned char g_buf[SHBUF], old_buf[SHBUF];
 static unsigned char *g_c;
 static uint32_t g_len;               /* length of the message body */
 static int32 g_hslen;
-static sslCipherSpec_t g_specA, g_specB;
+static sslCipherSpec_t g_specA, g_specB, g_specC;
+static psCipher16_t g_offered[4];    /* ghost: the explicit suite list this client's ClientHello carried (cipherSpecs[] of matrixSslNewClientSession -> matrixSslEncodeClientHello); the session keeps no copy of it in this build (ssl->tlsClientCipherSuites exists only with ENABLE_SECURE_REHANDSHAKES) */
+static uint8_t g_noffered;
 static uint32_t g_k;
 
 static struct
@@ -68,6 +73,12 @@ int32 parseServerHelloExtensions(ssl_t *ssl, int32 hsLen, unsigned char *extData
 }
 const sslCipherSpec_t *sslGetCipherSpec(const ssl_t *ssl, uint16_t id)
 {
+    if (md.spec_sel == 3)
+    {
+        /* the library's table entry for exactly this id (compiled in and not disabled) */
+        g_specC.ident = id;
+        return &g_specC;
+    }
     return md.spec_sel == 0 ? NULL : (md.spec_sel == 1 ? &g_specA : &g_specB);
 }
 void matrixSslSetKexFlags(ssl_t *ssl)
@@ -87,7 +98,9 @@ int32 sslCreateKeys(ssl_t *ssl)
 #define OK   (RET == PS_SUCCESS)
 #define GK32 (g_k < 32 ? g_k : 0)
 
+#define OFFERED(x) ((g_noffered > 0 && g_offered[0] == (x)) || (g_noffered > 1 && g_offered[1] == (x)) || (g_noffered > 2 && g_offered[2] == (x)) || (g_noffered > 3 && g_offered[3] == (x)))
 #define POSTS(P) \
+    P(accepted_suite_was_offered_by_this_client, IMPLIES(OK && (g_ssl.flags & SSL_FLAGS_RESUMED) == 0 && g_noffered > 0 && md.spec_sel == 3, g_ssl.cipher != NULL && OFFERED(g_ssl.cipher->ident))) \
     P(accepted_hello_has_no_avoidable_downgrade, IMPLIES(OK && (OURS & v_tls_1_3) != 0 && (ACT & v_tls_negotiated) != 0 && (ACT & v_tls_1_3_any) == 0, !SENTINEL)) \
     P(accepted_version_is_enabled,      IMPLIES(OK, ONEVER(NG) && (NG & OURS) != 0 && (ACT & v_tls_negotiated) != 0)) \
     P(accepted_version_is_the_messages, IMPLIES(OK, NG == psVerFromEncodingMajMin(old_buf[0], old_buf[1]))) \
@@ -101,7 +114,7 @@ __CPROVER_requires(md.ext_calls == 0)
 POSTS(ENSURES_CLAUSE)
 CANARY_CLAUSE(__CPROVER_return_value != PS_SUCCESS)
 __CPROVER_assigns(g_c, g_ssl.peerHelloVersion, g_ssl.activeVersion, g_ssl.err, g_ssl.sec.serverRandom, g_ssl.sec.masterSecret, g_ssl.sessionId, g_ssl.sessionIdLen,
-                  g_ssl.flags, g_ssl.cipher, g_ssl.maxPtFrag, g_ssl.hsState, g_ssl.decState, g_ssl.extFlags, g_sid.sessionTicketState, md.ext_calls)
+                  g_ssl.flags, g_ssl.cipher, g_ssl.maxPtFrag, g_ssl.hsState, g_ssl.decState, g_ssl.extFlags, g_sid.sessionTicketState, md.ext_calls, g_specC.ident)
 ;
 
 /* tls.c is included for the real weOnlySupportTls13; its sslCreateKeys (key
@@ -123,6 +136,7 @@ struct __attribute__((packed)) inputs
     uint16_t identA, identB, ext_consumed, ticketState;
     int32_t ext_rc, keys_rc, maxPtFrag;
     uint32_t k;
+    uint16_t offered[4]; uint8_t noffered;
 };
 #ifndef NATIVE_REPLAY
 struct inputs nondet_in(void);
@@ -157,6 +171,9 @@ HARNESS_BEGIN
     g_ssl.maxPtFrag = in.maxPtFrag;
     md.ext_rc = in.ext_rc; md.keys_rc = in.keys_rc; md.ext_consumed = in.ext_consumed; md.spec_sel = in.spec_sel; md.ext_calls = 0;
     g_k = in.k;
+    g_offered[0] = in.offered[0]; g_offered[1] = in.offered[1]; g_offered[2] = in.offered[2]; g_offered[3] = in.offered[3];
+    g_noffered = in.noffered;
+    __CPROVER_assume(g_noffered <= 4);
     SNAPSHOT(g_ssl);
     vr_ret = parseServerHello(&g_ssl, g_hslen, &g_c, g_buf + g_len);
     (void) vr_ret;
